@@ -322,6 +322,9 @@ func drawRebind(rt *rapid.T, mode int) *RebindCase {
 	case 1:
 		c.B = wideTable(rt, 8, copt, c.Cfg.TableIDBytes)
 		c.B.DB, c.B.Name = "d", "t2"
+		if rapid.Bool().Draw(rt, "case_only") {
+			c.B.Name = "T1" // differs from "t1" only in case: still another table on a case-sensitive master
+		}
 		for i := range c.B.Cols {
 			c.B.Cols[i].Name = fmt.Sprintf("other%d", i)
 		}
@@ -387,6 +390,7 @@ func TestC15(t *testing.T) {
 	o.MaxCols = 6
 	o.MaxUnits = 6
 	o.BigBase = false
+	o.Scale = false
 	o.Col = gen.ColumnOpt{NoHeavy: true, NoJSON: true}
 	rapidCheck(t, func(rt *rapid.T) {
 		switch rapid.IntRange(0, 2).Draw(rt, "part") {
